@@ -351,12 +351,12 @@ def check_rules(ctx):
             from .c02 import _fold
 
             vars_ = [EP.var(p_) for p_ in fparams]
-            tgt_m = _fold(ctx, target, vars_)
+            tgt_m = _fold(ctx, target, vars_, reduction_rule=R3)
             prod_m = None
             for e_ in emitted.elts:  # emitted list is in matrix order (checked by :factors / :order)
                 ge = by_name.get(e_.func.id)
                 args_ = [EP.var(fparams[unpack.index(norm(a))]) for a in e_.args]
-                m_ = _fold(ctx, ge, args_)
+                m_ = _fold(ctx, ge, args_, reduction_rule=R3)
                 prod_m = m_ if prod_m is None else prod_m * m_
             ratio = tgt_m * prod_m.adjoint()
             dim = ratio.shape[0]
